@@ -1542,6 +1542,9 @@ class BaseSpaceImpl(*_base_space_impl_base):
         return _to_frame_inner(self.cells, args)
 
     def on_delete(self):
+        # Delete the ItemSpaces of the space with the values calculated
+        # from them, so that they do not outlive the space
+        self.del_all_itemspaces()
         for cells in self.cells.values():
             cells.clear_all_values(clear_input=True)
             cells.on_delete()
